@@ -317,6 +317,7 @@ func (e *cfgEnv) postAny(tag int) func(context.Context, *flyt.SharedStore, any, 
 		return "done", nil
 	}
 }
+
 // a fallback function installed by a step with an ODD tag fails (after recording that it ran), one with an even tag
 // recovers: a fallback that was replaced by a later setting must neither run nor rescue the run
 var errCfgFallback = errors.New("fallback of an odd-tagged step fails")
